@@ -76,7 +76,8 @@ def impl_chunk(items):
     return out
 
 def run(Rn, tier, rng):
-    from harness import c06
+    from harness import c06, fam_ra2
+    fam_ra2.run_c03(Rn, tier, rng)            # dtype-wide assignments (floats with 1e16 / inf, extremes), mask assignment with per-cell values
     c06.run_programs(Rn, tier, rng, observe=False, assign=True)     # assignments into lazily derived arrays (views with repeated rows included)
     items = [it for it in gen(tier, rng) if not (isinstance(it[1], tuple) and len(it[1]) == 2 and isinstance(it[1][0], list) and isinstance(it[1][1], list)
              and not (it[1][0] and isinstance(it[1][0][0], bool)) and len(it[1][0]) != len(it[1][1]) and 1 in (len(it[1][0]), len(it[1][1])))]
